@@ -138,4 +138,51 @@ example : ∃ u f c text out, shape u f c text = .ok out ∧ hasFlag c.flags BF_
    ⟨.ltr, some .ltr, 0, 0, 0⟩, [(0x41, 0), (0x200B, 1), (0x41, 2)], _, rfl, by decide,
    by decide⟩
 
+
+/-- C13_preserve: with PRESERVE_DEFAULT_IGNORABLES the two default-ignorable steps do nothing
+    (for every buffer, flag state and font) ... -/
+theorem C13_preserve_steps (f : Font) (c : Cfg) (s : Scratch) (l : List G)
+    (hP : hasFlag c.flags BF_PRESERVE = true) : zeroWidthDI c s l = l ∧ hideDI f c s l = l := by
+  unfold zeroWidthDI hideDI
+  rw [hP]; simp
+
+/-- ... and a default-ignorable character is rendered exactly like any other character of its
+    general category: for a text of in-scope characters that are not marks and cannot become
+    grapheme continuations (this admits every default ignorable that is not a mark, ZWJ or a tag,
+    e.g. U+00AD, U+061C, U+180E, U+200B, U+200C, U+200E, U+2060.., U+FEFF, the reserved ranges),
+    default-ignorable or not, the result is the formula of C16_default — own cmap glyph, own
+    advance, own cluster, in all four directions.
+    (Default-ignorable MARKS — CGJ, Mongolian FVS, variation selectors — go through the mark
+    zeroing steps like every nonspacing mark; that part of the statement is carried by the
+    correspondence / search streams, see the check.) -/
+theorem C13_preserve (u : Ucd) (f : Font) (c : Cfg) (text : List (Nat × Nat))
+    (hP : hasFlag c.flags BF_PRESERVE = true)
+    (hscope : ∀ t ∈ text, u.norm t.1 = false ∧ u.mcc t.1 = 0)
+    (hplain : ∀ t ∈ text, PlainChar u t.1)
+    (hglyph : ∀ t ∈ text, (nominal f (rotCp u f c t.1)).isSome = true) :
+    shape u f c text = .ok
+      (if c.dir.isBackward then (text.map (glyphOf u f c)).reverse else text.map (glyphOf u f c)) :=
+  shape_plain u f c text hscope hplain hglyph (Or.inr hP)
+
+/-- hypotheses of C13_preserve are satisfiable with a default ignorable in the text: A, U+200B, A -/
+example : ∃ (u : Ucd) (f : Font) (c : Cfg) (text : List (Nat × Nat)), hasFlag c.flags BF_PRESERVE = true ∧
+    (∀ t ∈ text, u.norm t.1 = false ∧ u.mcc t.1 = 0) ∧ (∀ t ∈ text, PlainChar u t.1) ∧
+    (∀ t ∈ text, (nominal f (rotCp u f c t.1)).isSome = true) ∧ (∃ t ∈ text, u.isDI t.1 = true) :=
+  ⟨⟨fun c => if c == 0x200B then 1 else 9, fun _ => 0, genIsDI, fun _ => false, fun _ => 0, fun _ => none,
+      fun _ => none, fun _ => false⟩,
+   ⟨[⟨3, 1, fun c => if c == 0x200B then some 3 else if c == 0x41 then some 1 else none⟩], 1000,
+      some (fun _ => some 500), none, 800, -200, none⟩,
+   ⟨.ltr, some .ltr, 4, 0, 0⟩, [(0x41, 0), (0x200B, 1), (0x41, 2)],
+   by decide,
+   by intro t _; exact ⟨rfl, rfl⟩,
+   by
+     intro t ht
+     simp only [List.mem_cons, List.not_mem_nil, or_false] at ht
+     rcases ht with rfl | rfl | rfl <;> exact ⟨by decide, by decide⟩,
+   by
+     intro t ht
+     simp only [List.mem_cons, List.not_mem_nil, or_false] at ht
+     rcases ht with rfl | rfl | rfl <;> decide,
+   ⟨(0x200B, 1), by simp, by decide⟩⟩
+
 end RbModel.Pipeline
